@@ -815,7 +815,8 @@ class OdeSystem(object):
             integrator_kwargs['atol'] = self.atol
             integrator_kwargs['rtol'] = self.rtol
 
-            if self.__method.symplectic and not self.__method.is_implicit:
+            # (is_implicit is an instance property, it cannot be read off the class)
+            if issubclass(self.__method, integrators.ExplicitSymplecticIntegrator):
                 integrator_kwargs['staggered_mask'] = self.staggered_mask
 
             if self.integrator:
